@@ -19,7 +19,7 @@ REPO = "/repo"
 SEEDED = os.path.join(VERIF, "seeded")
 VERIFY_WT = "/tmp/wt-verify"
 TARGET = "/tmp/seeded-target"
-ALL = ["C%02d" % i for i in range(1, 21) if i not in (11, 16)]
+ALL = ["C%02d" % i for i in range(1, 21) if i not in (16,)]
 
 
 def sh(cmd, cwd=None, env=None, timeout=3600):
